@@ -82,6 +82,7 @@ def run(chk, prog):
     chk.floor(RA, 'functions replacing the current flow / its call stack', n_inst, 3)
 
     # ---- (a1) the look-ahead copy carries the parked flows
+    save_names_the_current_flow(chk, prog)
     RE = 'C10.look-ahead-copy-keeps-the-parked-flows'
     chk.rule(RE, 'The state the engine runs a look-ahead on replaces the live state when the look-ahead is committed: '
              'copy_and_start_patching fills the copy\'s named_flows from the original\'s on every path on which the '
@@ -306,3 +307,56 @@ def check_load_replaces_parked_flows(chk, prog, tr, RB):
 def _is_flow_map(fn, t):
     ts = ' '.join(t['f'].get('targs', []))
     return 'flow::Flow' in ts and 'String' in ts
+
+
+OPTIONAL_KEYS = {
+    ('StoryState::write_json', 'currentDivertTarget'): 'written only for a pending divert; the loader starts from a null diverted pointer',
+    ('Flow::write_json', 'choiceThreads'): 'written only when some choice\'s thread is no longer on the call stack',
+}
+
+
+def save_names_the_current_flow(chk, prog):
+    from analysis.defuse import consts_of
+    from analysis.wbf import err_exits
+    RF = 'C10.save-names-every-flow-and-the-current-one'
+    chk.rule(RF, 'The keys StoryState::write_json and Flow::write_json put into a save are written on every successful '
+             'path, except the tabled optional ones (currentDivertTarget, choiceThreads): in particular "flows" and '
+             '"currentFlowName", whose value is the name of StoryState::current_flow. The loader tells the current flow '
+             'from the parked ones only by that name: a save that leaves it out (say, for the default flow) is loaded '
+             'with whatever flow the loading story happened to be in as the current one and every saved flow parked.')
+    lt = Tracer(prog, transparent=lambda cs: True, use_summaries=False)
+    n = 0
+    for nm in ('StoryState::write_json', 'Flow::write_json'):
+        f = prog.fn(nm)
+        if not chk.anchor(RF, nm, f):
+            continue
+        g = cfg(f)
+        errs = [b for b, d_, s_ in err_exits(prog, f)]
+        pd = g.postdominators(errs).get(0, ())
+        seen = set()
+        for h in prog.with_closures(f):
+            for bb, t in h.calls():
+                if not callee_short(t).endswith('Map::insert') or len(t['args']) < 3:
+                    continue
+                for k in sorted(consts_of(lt.prov(h, t['args'][1]))):
+                    n += 1
+                    seen.add(k)
+                    always = h is f and bb in pd
+                    if (nm, k) in OPTIONAL_KEYS:
+                        chk.ok(RF, chk.key(RF, nm, k), 'tabled optional key: ' + OPTIONAL_KEYS[(nm, k)], h.loc(bb))
+                        continue
+                    chk.decide(RF, chk.key(RF, nm, k), always, 'written on every successful path',
+                               '%s writes the save key "%s" only under a condition: a loader that does not find it keeps '
+                               'what the loading story had (the key is not one of the tabled optional keys %s)'
+                               % (nm, k, sorted(x[1] for x in OPTIONAL_KEYS)), h.loc(bb))
+                    if k == 'currentFlowName':
+                        at = lt.prov(h, t['args'][2])
+                        chk.decide(RF, chk.key(RF, nm, k, 'value'), 'field:Flow::name' in at and
+                                   'field:StoryState::current_flow' in at, 'the value is current_flow.name',
+                                   'the value written under "currentFlowName" is not StoryState::current_flow.name (%s)'
+                                   % sorted(a for a in at if a.startswith('field:'))[:4], h.loc(bb))
+        if nm == 'StoryState::write_json':
+            for k in ('flows', 'currentFlowName'):
+                chk.decide(RF, chk.key(RF, nm, k, 'present'), k in seen, 'the key is written',
+                           'StoryState::write_json no longer writes "%s"' % k, f.loc(0))
+    chk.floor(RF, 'constant keys written by the state and flow writers', n, 16)
